@@ -47,10 +47,10 @@ META = {
     },
     "C02": {
         "technique": "crash/abort/bounded-progress monitor: panic hook + catch_unwind on a 2 MiB stack, child processes with exit-status/signal observation for depth towers and long chains, nesting-bound sweep; thorough tier additionally interprets the parser under Miri",
-        "level_text": ("Exploration: every C01 input plus 23 nesting towers x depths up to 16384 (thorough 65536) closed/unclosed and 20 long chains are parsed on the stack size the server uses; "
+        "level_text": ("Exploration: every C01 input plus 23 nesting towers x depths up to 16384 (thorough 65536) closed/unclosed and 27 long chains are parsed on the stack size the server uses; "
                        "the monitor observes returned / panicked (with first in-repo frame) / killed-by-signal / exceeded bound; 48 recursion units x depths 118..134 x 41 tails sweep the parser's nesting bound. "
                        "Thorough tier: 8 Miri shards interpret parse + tree walk on ~85 hostile inputs each (UB / out-of-bounds / invalid enum value reports become violations). "
-                       "Found and repaired: 'parser is stuck' panic and stack overflow on deep nesting; look-ahead budget too small just below the nesting bound."),
+                       "Found and repaired: 'parser is stuck' panic and stack overflow on deep nesting; look-ahead budget too small just below the nesting bound; chains nested through their left-most operand (80 000-node paths from 320 KB of well-formed text: abort). Also 27 chain shapes incl. wide delimiter pairs (bit arrays, constant tables, parameter lists of up to 50 000 elements) and 4 containers x 4 link kinds of left-deep nesting in child processes."),
         "design_ref": "DESIGN.md §5 C02",
         "level_note": "Inputs up to ~1 MiB; 'never loops' restated as bounded progress (20 s per parse, 120 s per child => inconclusive, never a violation by time alone).",
     },
@@ -140,7 +140,7 @@ META = {
     "C15": {
         "technique": "fault enumeration: grammar of valid and invalid LSP messages against the real binary; liveness, exactly-once accounting, acceptable-state-set oracle, deadlock classifier; thorough tier: the same sequences against AddressSanitizer and ThreadSanitizer builds of the server (sanitizer reports read from log files, self-tested)",
         "level_text": ("Fault enumeration: ~3x10^3 sequences (5-60 messages each) per quick run, each against a fresh server process, covering every invalid-position class x message kind listed in the evidence. "
-                       "Found and repaired: five ways to kill the server with one notification (reversed range, positions beyond the document, mid-surrogate column, change after a rejected change, non-file URI)."),
+                       "Found and repaired: five ways to kill the server with one notification (reversed range, positions beyond the document, mid-surrogate column, change after a rejected change, non-file URI), and two more found in the ninth seeded round: any notification of the protocol without a handler, and any notification whose parameters hold a value no u32 can hold."),
         "design_ref": "DESIGN.md §5 C15",
         "level_note": "A deadlock verdict requires unanswered requests, an unanswered probe and flat CPU over 2 s; anything else that is slow is inconclusive. Sanitizer builds (ASan, TSan with -Zbuild-std): thorough tier; one family of TSan reports inside the pinned parking_lot/salsa pair is a listed known finding (DESIGN.md section 6).",
     },
